@@ -3,7 +3,11 @@
 and compare with the stable_pass list.  usage: baseline.py [repo_dir]   exit 0 = all 185 still pass"""
 import json, os, subprocess, sys, tempfile, xml.etree.ElementTree as ET
 
-repo = sys.argv[1] if len(sys.argv) > 1 else "/repo"
+src = sys.argv[1] if len(sys.argv) > 1 else "/repo"
+# run on a snapshot so that later edits of the tree do not disturb the (4-minute) run
+import shutil
+repo = tempfile.mkdtemp(prefix="baseline_snapshot_")
+subprocess.run(["rsync", "-a", "--exclude", ".git", "--exclude", "__pycache__", src + "/", repo + "/"], check=True)
 base = json.load(open("/root/.vp/BASELINE.json"))
 fd, out = tempfile.mkstemp(suffix=".xml"); os.close(fd)
 cmd = base["cmd"].replace("cd /repo", f"cd {repo}").replace("<file>", out)
@@ -14,6 +18,7 @@ for tc in ET.parse(out).getroot().iter("testcase"):
     if not any(ch.tag in ("failure", "error", "skipped") for ch in tc):
         passed.add(f"{tc.get('classname')}::{tc.get('name')}")
 os.remove(out)
+shutil.rmtree(repo, ignore_errors=True)
 want = set(base["stable_pass"])
 missing = sorted(want - passed)
 print(f"baseline: {len(want & passed)}/{len(want)} stable tests pass; {len(passed)} passed in total")
